@@ -178,12 +178,16 @@ func getMinIntType(
 		minimum, maximum, exclusiveMinimum, exclusiveMaximum,
 	)
 
+	// The normalized bounds may alias the schema's own minimum/maximum (boolean exclusive form), so
+	// adjust copies: the validator generated later must still see the bounds as stated.
 	if nExclusiveMin && nMin != nil {
-		*nMin += 1.0
+		v := *nMin + 1.0
+		nMin = &v
 	}
 
 	if nExclusiveMax && nMax != nil {
-		*nMax -= 1.0
+		v := *nMax - 1.0
+		nMax = &v
 	}
 
 	if nMin != nil && *nMin >= 0 {
